@@ -108,14 +108,14 @@ func c09Check(c forkh.Cfg) func(o *obs.Obs) string {
 			in[fmt.Sprint(x)]++
 		}
 		if userFn {
-			for x, n := range calls {
-				if n > in[x] {
+			for _, x := range sortedKeys(calls) {
+				if n := calls[x]; n > in[x] {
 					return fmt.Sprintf("%s/twice|the function was applied %d times to element %s (input %v)", tag, n, x, c.Input)
 				}
 			}
 			if complete {
-				for x, n := range in {
-					if calls[x] != n {
+				for _, x := range sortedKeys(in) {
+					if n := in[x]; calls[x] != n {
 						return fmt.Sprintf("%s/calls|input %v fully consumed but the function was applied %d times to element %s", tag, c.Input, calls[x], x)
 					}
 				}
@@ -154,24 +154,30 @@ func c09Check(c forkh.Cfg) func(o *obs.Obs) string {
 			if lb := o.LibBlocked(); len(lb) > 0 {
 				return fmt.Sprintf("%s/leak|input closed and outputs drained but library goroutines remain: %v", tag, lb)
 			}
-			for n, cl := range o.Closed {
-				if !cl {
-					return fmt.Sprintf("%s/not-closed|input closed and outputs drained but channel %q is not closed", tag, n)
-				}
+			for _, n := range o.NotClosed() {
+				return fmt.Sprintf("%s/not-closed|input closed and outputs drained but channel %q is not closed", tag, n)
 			}
 		}
 		if cancelled {
 			if lb := o.LibBlocked(); len(lb) > 0 {
 				return fmt.Sprintf("%s/cancel-leak|cancelled and input closed but library goroutines remain: %v", tag, lb)
 			}
-			for n, cl := range o.Closed {
-				if !cl {
-					return fmt.Sprintf("%s/cancel-not-closed|cancelled, library goroutines gone, but channel %q was never closed", tag, n)
-				}
+			for _, n := range o.NotClosed() {
+				return fmt.Sprintf("%s/cancel-not-closed|cancelled, library goroutines gone, but channel %q was never closed", tag, n)
 			}
 		}
 		return ""
 	}
+}
+
+// sortedKeys: oracle messages must not depend on map iteration order (the determinism guard compares them)
+func sortedKeys(m map[string]int) []string {
+	ks := make([]string, 0, len(m))
+	for k := range m {
+		ks = append(ks, k)
+	}
+	sort.Strings(ks)
+	return ks
 }
 
 func seq1(k int) []int {
